@@ -155,9 +155,10 @@ def run(ctx, chk, tier="quick"):
     mod = g.module
     thr = g.params[2] if len(g.params) > 2 else None
     sites = ctx.sites_in(g)
-    sel = [s for s in sites if s.stmt is not None and s.stmt.kind == "select"]
+    sel = [s for s in sites if s.stmt is not None and s.stmt.kind == "select"
+           and {"water_level", "rainfall_intensity"} <= {x.table for x in s.stmt.sources}]
     if len(sel) != 1:
-        chk.indeterminate("C04.O2", where_of(g, g.node), "expected one SELECT in classify_interstorms")
+        chk.indeterminate("C04.O2", where_of(g, g.node), "expected one series SELECT (water level + rainfall) in classify_interstorms")
         return
     b = binding_of(ctx, g, sel[0])
     if b is None or b.kind != "columns":
@@ -268,6 +269,8 @@ def run(ctx, chk, tier="quick"):
                            key="classify_interstorms|rate-unit", why="a rate in mm/s or mm/step compared with a mm/h threshold")
                 except UnitError as exc:
                     chk.info("C04.O2", where_of(g, rdef), "rate unit not determinable: %s" % exc, "not decided")
+    from .. import sqltypes
+    sqltypes.check(ctx, chk, "C04.O2", functions=(g.fq,))
     # is_interstorm truth table
     mys_name = None
     st = enclosing_stmt(mc)
@@ -489,8 +492,12 @@ def _rate_alignment(mod, flow, rdef, level, epoch):
     else:
         return "unknown", ast.unparse(rdef), None
     qe = flow.expand(q, keep={level, epoch}) if q is not None else q
-    # numerator must be the forward difference of the level
-    num = qe.left if isinstance(qe, ast.BinOp) and isinstance(qe.op, ast.Div) else None
+    # numerator must be the forward difference of the level: dz / dt, or dz * (steps per hour)
+    num = None
+    if isinstance(qe, ast.BinOp) and isinstance(qe.op, ast.Div):
+        num = qe.left
+    elif isinstance(qe, ast.BinOp) and isinstance(qe.op, ast.Mult):
+        num = qe.left if _diff_kind(mod, qe.left, level) != 0 else qe.right
     if num is None or _diff_kind(mod, num, level) != 1:
         return ("unknown" if num is None else "left"), "increments %s" % (ast.unparse(num) if num is not None else ast.unparse(qe)), qe
     return align, "concatenate(%s, %s)" % (ast.unparse(a), ast.unparse(b))[:120], qe
